@@ -9,19 +9,22 @@ package extractor
 
 //@ func HTMLAssets
 //@   opaque
-//@   modifies models.URL::*, models.Item::base
+//@   modifies models.URL::*!Hops!Redirects, models.Item::base
 //@ func HTMLOutlinks
 //@   opaque
-//@   modifies models.URL::*, models.Item::base
+//@   modifies models.URL::*!Hops!Redirects, models.Item::base
+//@   ensures [fresh-urls] freshslice(result0) && forall(j, 0, len(result0), result0[j] == nil || fresh(result0[j])) // assumed: the extractor builds a new list of new URL objects, it never hands back the page's own URL object
 //@ func PDF
 //@   opaque
-//@   modifies models.URL::*
+//@   modifies models.URL::*!Hops!Redirects
+//@   ensures [fresh-urls] freshslice(result0) && forall(j, 0, len(result0), result0[j] == nil || fresh(result0[j])) // assumed: the extractor builds a new list of new URL objects, it never hands back the page's own URL object
 //@ func ExtractURLsFromHeader
 //@   opaque
 //@   modifies nothing
+//@   ensures [fresh-urls] freshslice(result0) && forall(j, 0, len(result0), result0[j] == nil || fresh(result0[j])) // assumed: the extractor builds a new list of new URL objects, it never hands back the page's own URL object
 //@ func IsSitemapXML
 //@   opaque
-//@   modifies models.URL::*
+//@   modifies models.URL::*!Hops!Redirects
 //@ func IsHTML
 //@   opaque
 //@   modifies nothing
@@ -40,3 +43,7 @@ package extractor
 //@ func IsXML
 //@   opaque
 //@   modifies nothing
+//@ func S3
+//@   opaque
+//@   modifies models.URL::*!Hops!Redirects
+//@   ensures [fresh-urls] freshslice(result0) && forall(j, 0, len(result0), result0[j] == nil || fresh(result0[j])) // assumed: the extractor builds a new list of new URL objects, it never hands back the page's own URL object
